@@ -55,6 +55,12 @@ func seq(tier string, sh *vkit.Shard, p *vkit.Part) {
 			p.Count("debug ms "+c.Name, int(time.Since(t0).Milliseconds()))
 		}
 	}
+	// growth landing between the size classes, then Free and Malloc around the class (inv.go)
+	tl := time.Now()
+	landing(tier, sh, p, deadline)
+	if os.Getenv("VERIF_C20_TIMING") != "" {
+		p.Count("debug ms grow-free-malloc", int(time.Since(tl).Milliseconds()))
+	}
 	t0 := time.Now()
 	giant(tier, sh, p, deadline)
 	if os.Getenv("VERIF_C20_TIMING") != "" {
